@@ -592,7 +592,7 @@ class Interp(Ops, B.BuiltinsMixin):
             return k[1]
         m = {"int": "int", "bool": "bool", "real": "float", "str": "str", "bytes": "bytes", "none": "NoneType",
              "ListV": "list", "DictV": "dict", "SetV": "set", "tuple": "tuple", "SymSeq": "list",
-             "SymMap": "dict", "ClassV": "type", "FuncV": "function", "NdArr": "ndarray", "GenV": "generator"}
+             "SymMap": "dict", "ClassV": "type", "FuncV": "function", "NdArr": "ndarray", "GenV": "generator", "slice": "slice"}
         if k in m and m[k] in self.builtins:
             if isinstance(v, SymSeq) and v.kind != "list":
                 return self.builtins[v.kind]
